@@ -63,11 +63,22 @@ func specLemmaObligations(r *Runner) []*LedgerEntry {
 			{"base", []*Term{hyp}, absorbed(a)},
 			{"step", []*Term{hyp, Sle(a, n), Slt(n, I64(1<<62)), absorbed(n), ex.stepAxiom(arr, n)}, absorbed(Add(n, I64(1)))},
 		}
+		if v.name == "value" {
+			// ws-prefix lemma, step: in the initial configuration a whitespace byte changes nothing
+			before := q8(tab.ID(rjvSpecLocal{Ctl: rjvSpecBefore, Ctx: rjvSpecCtxTop}))
+			isws := byteIn(Select(arr, n), ' ', '\t', '\r', '\n')
+			cases = append(cases, struct {
+				name string
+				hyps []*Term
+				goal *Term
+			}{"wsprefix-step", []*Term{Eq(ex.Rq(arr, n), before), Eq(ex.Rdepth(arr, n), I64(0)), isws, ex.stepAxiom(arr, n)},
+				And(Eq(ex.Rq(arr, Add(n, I64(1))), before), Eq(ex.Rdepth(arr, Add(n, I64(1))), I64(0)))})
+		}
 		for _, c := range cases {
 			q := &Query{Name: "spec/absorb/" + c.name, Hyps: c.hyps, Goals: []*Term{c.goal}}
 			body, _ := q.Build(0)
 			res := r.eng.pool.Decide(body, nil, r.quickMs, r.slowMs)
-			e := &LedgerEntry{Name: "spec[" + v.name + "]/absorb/" + c.name, Kind: "lemma", Fn: "spec", Instances: 1, Solver: res.Solver, Secs: res.Secs, Status: "discharged"}
+			e := &LedgerEntry{Name: "spec[" + v.name + "]/lemma/" + c.name, Kind: "lemma", Fn: "spec", Instances: 1, Solver: res.Solver, Secs: res.Secs, Status: "discharged"}
 			if res.Status != "unsat" {
 				e.Status = "failed"
 				if res.Status != "sat" {
